@@ -23,7 +23,7 @@ CHECKS = [
   "histogram metrics are not in the families (their state cannot be populated through the public API); datum timestamps are compared through timestamp() values stored in gauges",
   "exhaustive bounded history enumeration with a differential oracle on the real VM", "§3 C05"),
  ("C07", "seqx", "exploration",
-  "one program with a strptime site per layout (9 layouts), a settime site per value (7) and a plain site; all line sequences of length<=2 (thorough 3) × 4 zones × syslog-current-year on/off, plus a run crossing the memo size; oracle is time.Parse/ParseInLocation with the documented year substitution, and a clock bracket for processing time",
+  "one program with a strptime site per layout (10 layouts), a settime site per value (7) and a plain site; all line sequences of length<=2 (thorough 3) × 4 zones × syslog-current-year on/off, plus a run crossing the memo size; oracle is time.Parse/ParseInLocation with the documented year substitution, and a clock bracket for processing time",
   "layout and value families are fixed finite sets; the yearless substitution reads the same clock as the VM",
   "exhaustive bounded enumeration of configurations and line sequences against the standard library as specification", "§3 C07"),
  ("C08", "seqx", "exploration",
